@@ -417,6 +417,22 @@ def index_bounds(rep, lua):
                             bad.append((n, iv))
                     except (KeyError, TypeError):
                         bad.append(("?", "?"))
+            # a guarded *write* must also keep every invalid index out: storing at l[0] (i = -1) or past the end leaves a
+            # stray element that #l, pairs() and the printer disagree about
+            writes = any(x.get("k") == "Assign" and any(t.get("k") == "Index" and luaparse.show(t["obj"]) == l for t in x["targets"])
+                         for x in luaparse.walk(st["clauses"][0][1]))
+            if writes:
+                let_in = []
+                for n in (1, 2, 5):
+                    for iv in (-1, n):
+                        try:
+                            if _lua_eval(cond, {i: iv, "#" + l: n}):
+                                let_in.append((n, iv))
+                        except (KeyError, TypeError):
+                            let_in.append(("?", "?"))
+                rep.ob("INDEX-BOUNDS", "%s|guard-excludes-invalid" % name, not let_in,
+                       "%s writes under `%s`; invalid indices let through (length, index): %s" % (name, luaparse.show(cond), let_in or "none"),
+                       "sylt-compiler/src/preamble.lua:%s" % st.get("line"))
             rep.ob("INDEX-BOUNDS", "%s|guard" % name, not bad,
                    "%s guards its access with `%s`; valid indices rejected (length, index): %s" % (name, luaparse.show(cond), bad or "none"),
                    "sylt-compiler/src/preamble.lua:%s" % st.get("line"))
